@@ -162,6 +162,9 @@ func runProgramme(p *programme) *progResult {
 	}
 	var rotations int64
 	var wg sync.WaitGroup
+	// all goroutines of the programme leave the gate together: the first batches of several ingesters
+	// then reach a stream that does not exist yet at the same moment
+	gate := make(chan struct{})
 	guard := func(name string, fn func()) {
 		wg.Add(1)
 		go func() {
@@ -175,6 +178,7 @@ func runProgramme(p *programme) *progResult {
 					mu.Unlock()
 				}
 			}()
+			<-gate
 			fn()
 		}()
 	}
@@ -260,6 +264,7 @@ func runProgramme(p *programme) *progResult {
 			}
 		})
 	}
+	close(gate)
 	wg.Wait()
 	res.Rotations = atomic.LoadInt64(&rotations)
 	res.DurationMs = time.Since(t0).Milliseconds()
